@@ -1,4 +1,4 @@
-import Honeycomb.Model.Session
+import Honeycomb.Model.SessionAll
 open HC
 
 partial def loop (h : IO.FS.Stream) (out : IO.FS.Stream) (s : Sess) : IO Unit := do
@@ -10,7 +10,7 @@ partial def loop (h : IO.FS.Stream) (out : IO.FS.Stream) (s : Sess) : IO Unit :=
     out.putStrLn t
     loop h out s
   else
-    let (s', o) := step s t
+    let (s', o) := stepAll s t
     out.putStrLn o
     loop h out s'
 
